@@ -156,7 +156,9 @@ def generate(seed, tier):
     # suppressed while the configuration is empty, which is not what this property is about)
     shapes = SHAPES if nthreads == 1 else tuple(x for x in SHAPES if x != "swap")
     threads = [[r.choice(shapes) for _ in range(r.randrange(1, 5))] for _ in range(nthreads)]
-    return {"tps": tps, "threads": threads, "sequential": r.random() < 0.4,
+    # "build": the tracepoints are built from their arguments (stage, method_name, span ...) by the agent's own
+    # build_trigger, as for tracepoints from the service or registered in code; "direct": locations/actions given directly
+    return {"tps": tps, "threads": threads, "sequential": r.random() < 0.4, "via": r.choice(("direct", "build")),
             "knobs": common.draw_knobs(r, stall_p=0.0, ident_reuse_p=r.choice((0.0, 0.5, 1.0)))}
 
 
@@ -200,8 +202,24 @@ def execute(s, ch):
         k.settle()
         trig = []
         A = LocationAction.ActionType
+        from deep.api.tracepoint.trigger import build_trigger
         for tp in s["tps"]:
             conf = {"fire_count": tp["fire_count"], "fire_period": "-100000000"}
+            if s.get("via") == "build":
+                args = dict(conf)
+                if tp["kind"] in ("mspan", "lspan"):
+                    args.update(span="method" if tp["kind"] == "mspan" else "line", snapshot="no_collect")
+                else:
+                    args.update(stage="method_capture" if tp["kind"] == "mcap" else "line_capture")
+                if tp["kind"][0] == "m":
+                    args["method_name"] = tp["func"]
+                    rec.want_calls[(p.basename, tp["func"])] = True
+                    built = build_trigger(tp["id"], p.basename, -1, args, [], [])
+                else:
+                    rec.want_lines[(p.basename, line_of[tp["line"]])] = True
+                    built = build_trigger(tp["id"], p.basename, line_of[tp["line"]], args, [], [])
+                trig.append(built)
+                continue
             if tp["kind"] == "mspan":
                 conf["span"] = "method"
                 loc = FunctionLocation(p.basename, tp["func"], Location.Position.START)
